@@ -17,7 +17,8 @@ pub const FIELDS: [&str; 9] = ["name", "age", "score", "tags", "opt", "ukeys", "
 #[derive(Clone, Debug, Serialize, Deserialize)]
 pub enum HOp {
     Add(DocSpec),
-    /// schema-violating add: 0 = wrong type, 1 = missing required field, 2 = Null under a non-optional field, 3 = unknown field
+    /// add that must be rejected: 0 = wrong type, 1 = missing required field, 2 = Null under a non-optional field, 3 = unknown field,
+    /// 4 = a valid document whose encoding exceeds the configured object size limit (rejected at the storage step, after the indexes took it)
     AddInvalid(u8, DocSpec),
     /// update of a live document (selected by index) with the fields of `spec` selected by `mask`
     Update { t: u16, spec: DocSpec, mask: u16 },
@@ -40,7 +41,7 @@ pub fn op_strategy(weights_conflict_heavy: bool) -> impl Strategy<Value = HOp> {
     let w_add = if weights_conflict_heavy { 14 } else { 10 };
     prop_oneof![
         w_add => spec().prop_map(HOp::Add),
-        1 => (0u8..4, spec()).prop_map(|(k, s)| HOp::AddInvalid(k, s)),
+        1 => (0u8..5, spec()).prop_map(|(k, s)| HOp::AddInvalid(k, s)),
         8 => (any::<u16>(), spec(), 1u16..512).prop_map(|(t, spec, mask)| HOp::Update { t, spec, mask }),
         1 => (any::<u16>(), 0u8..3).prop_map(|(t, kind)| HOp::UpdateBad { t, kind }),
         4 => any::<u16>().prop_map(|t| HOp::Remove { t }),
@@ -216,6 +217,23 @@ pub async fn exec_op(sys: &mut Sys, tr: &mut Track, op: &HOp, ctx: &mut CaseCtx)
             }
             if *kind == 3 && d.set_field("nosuchfield", Fv::U64(1)).is_err() {
                 set_err = true;
+            }
+            if *kind == 4 {
+                // the document's own words repeated until its encoding exceeds the object size limit of
+                // `db_config` (its unique name is its own: the rejection can only come from the size)
+                let own = match f.get("body") {
+                    Some(Fv::Text(t)) if !t.is_empty() => t.clone(),
+                    _ => "fox".to_string(),
+                };
+                let mut big = String::with_capacity(crate::world::OBJECT_SIZE_LIMIT + 64);
+                while big.len() <= crate::world::OBJECT_SIZE_LIMIT {
+                    big.push_str(&own);
+                    big.push(' ');
+                }
+                if d.set_field("body", Fv::Text(big)).is_err() {
+                    set_err = true;
+                }
+                ctx.count("oversized_adds", 1);
             }
             if set_err {
                 // rejected while building the document: nothing reached the collection
